@@ -596,4 +596,199 @@ theorem shared_stream_write_ends_under_fairness (len : Nat) (dgram : Bool) (f : 
   obtain ⟨s, hs, _, _, hr⟩ := hx.2.1 hne
   exact ⟨m, s, hs, by rw [hr]; exact hend⟩
 
+/-! ## the read machine of ev.c as an instance -/
+
+/-- `StateRead` (+ the byte sequences of the model) + call log + last result -/
+structure RS (α : Type) where
+  chunk : Bool
+  recvfrom : Bool
+  limC : Nat
+  base : Nat
+  st : RSt α
+  calls : List Call
+  res : RRes
+
+/-- `ev_callback_read` on one event -/
+def rstep {α : Type} (s : RS α) (ev : REv) : RS α × Bool :=
+  let o := readStep s.chunk s.recvfrom s.limC s.base s.st ev
+  ({ s with st := o.st, calls := s.calls ++ o.calls, res := o.res }, o.res != .pending)
+
+theorem rstep_close {α : Type} (s : RS α) : (rstep s .close).2 = true := rfl
+
+theorem foldOp_rstep {α : Type} (evs : List REv) : ∀ (s : RS α),
+    (foldOp rstep s evs).1.st = (runRead s.chunk s.recvfrom s.limC s.base s.st evs).st ∧
+    (foldOp rstep s evs).1.calls = s.calls ++ (runRead s.chunk s.recvfrom s.limC s.base s.st evs).calls ∧
+    (evs ≠ [] → (foldOp rstep s evs).1.res = (runRead s.chunk s.recvfrom s.limC s.base s.st evs).res) ∧
+    ((foldOp rstep s evs).2 = true ↔ (runRead s.chunk s.recvfrom s.limC s.base s.st evs).res ≠ .pending) := by
+  induction evs with
+  | nil => intro s; simp [foldOp, runRead]
+  | cons ev evs ih =>
+    intro s
+    cases hr : (readStep s.chunk s.recvfrom s.limC s.base s.st ev).res with
+    | pending =>
+      have h2 : (rstep s ev).2 = false := by simp [rstep, hr]
+      have hf : foldOp rstep s (ev :: evs) = foldOp rstep (rstep s ev).1 evs := by simp [foldOp, h2]
+      have hrw : runRead s.chunk s.recvfrom s.limC s.base s.st (ev :: evs) =
+          { runRead s.chunk s.recvfrom s.limC s.base (readStep s.chunk s.recvfrom s.limC s.base s.st ev).st evs with
+            calls := (readStep s.chunk s.recvfrom s.limC s.base s.st ev).calls ++
+              (runRead s.chunk s.recvfrom s.limC s.base (readStep s.chunk s.recvfrom s.limC s.base s.st ev).st evs).calls } := by
+        simp [runRead, hr]
+      obtain ⟨i1, i2, i3, i4⟩ := ih (rstep s ev).1
+      rw [hf, hrw]
+      refine ⟨i1, ?_, ?_, i4⟩
+      · show (foldOp rstep (rstep s ev).1 evs).1.calls = s.calls ++ ((readStep s.chunk s.recvfrom s.limC s.base s.st ev).calls ++ _)
+        rw [i2]
+        show (s.calls ++ (readStep s.chunk s.recvfrom s.limC s.base s.st ev).calls) ++ _ = _
+        rw [List.append_assoc]; rfl
+      · intro _
+        cases evs with
+        | nil => simp [foldOp, runRead, rstep, hr]
+        | cons e2 es => exact i3 (by simp)
+    | nil b => simp [foldOp, runRead, rstep, hr]
+    | buf r => simp [foldOp, runRead, rstep, hr]
+    | failed e => simp [foldOp, runRead, rstep, hr]
+    | starved => simp [foldOp, runRead, rstep, hr]
+
+/-- ★ SHARED STREAM, reads, all schedules: the pending read of fiber `f` makes exactly the system calls of `runRead` against
+    the read-direction events of the schedule and ends with its result; what it appended is at most `n` bytes and is the
+    next bytes of the arrival sequence, in order, none lost, none twice — whatever other fibers do on the stream. -/
+theorem shared_stream_read_exact {α : Type} (chunk recvfrom : Bool) (limC base n : Nat) (inc : List α) (f : Nat)
+    (as : List (Act2 (RS α) REv)) (w : W2 (RS α)) (hinv : Inv2 w)
+    (ho : w.op f = some (.rd, ⟨chunk, recvfrom, limC, base, rInit n inc, [], .pending⟩)) :
+    let t := runRead chunk recvfrom limC base (rInit n inc) (evsOf .close .rd as)
+    (t.res = .pending → ∃ s, (run2 rstep .close w as).op f = some (.rd, s) ∧ s.st = t.st ∧ s.calls = t.calls) ∧
+    (t.res ≠ .pending → ∃ s, (f, .rd, s) ∈ (run2 rstep .close w as).done ∧ s.st = t.st ∧ s.calls = t.calls ∧ s.res = t.res) ∧
+    t.st.got.length ≤ n ∧ t.st.got ++ t.st.inc = inc := by
+  intro t
+  have hiso := isolation rstep .close f .rd as w _ hinv ho
+  rw [track_eq_foldOp rstep .close .rd rstep_close as] at hiso
+  obtain ⟨f1, f2, f3, f4⟩ := foldOp_rstep (evsOf REv.close .rd as) (⟨chunk, recvfrom, limC, base, rInit n inc, [], .pending⟩ : RS α)
+  have h0 : RInv n inc (rInit n inc) := ⟨rfl, by simp [rInit], by simp [rInit]⟩
+  have hi := runRead_inv chunk recvfrom limC base n inc (evsOf REv.close .rd as) _ h0
+  refine ⟨?_, ?_, ?_, hi.order⟩
+  · intro hp
+    have : (foldOp rstep (⟨chunk, recvfrom, limC, base, rInit n inc, [], .pending⟩ : RS α) (evsOf REv.close .rd as)).2 = false := by
+      cases hx : (foldOp rstep (⟨chunk, recvfrom, limC, base, rInit n inc, [], .pending⟩ : RS α) (evsOf REv.close .rd as)).2 with
+      | false => rfl
+      | true => exact absurd hp (f4.mp hx)
+    exact ⟨_, hiso.1 this, f1, by simpa using f2⟩
+  · intro hp
+    refine ⟨_, hiso.2 (f4.mpr hp), f1, by simpa using f2, ?_⟩
+    apply f3
+    intro hnil
+    have : t.res = .pending := by show (runRead chunk recvfrom limC base (rInit n inc) (evsOf REv.close .rd as)).res = _; rw [hnil]; rfl
+    exact hp this
+  · have h1 : t.st.got.length = t.st.read := hi.len
+    have h2 : t.st.read + t.st.left = n := hi.sum
+    show t.st.got.length ≤ n
+    omega
+
+def fairActR {α : Type} : Act2 (RS α) REv → Bool
+  | .ev .rd e => e.productive
+  | .close => true
+  | _ => false
+
+theorem evsOf_productiveR {α : Type} (as : List (Act2 (RS α) REv)) :
+    (as.filter fairActR).length ≤ ((evsOf REv.close .rd as).filter REv.productive).length := by
+  induction as with
+  | nil => simp [evsOf]
+  | cons a as ih =>
+    cases a with
+    | ev d e =>
+      cases d with
+      | wr => simpa [evsOf, fairActR, List.filter] using ih
+      | rd =>
+        cases hp : e.productive with
+        | true => simp [evsOf, fairActR, List.filter, hp]; omega
+        | false => simp [evsOf, fairActR, List.filter, hp]; omega
+    | close => simp [evsOf, fairActR, List.filter, REv.productive]; omega
+    | start g dg s0 e0 => simpa [evsOf, fairActR, List.filter] using ih
+
+theorem evsOf_closedR {α : Type} (as : List (Act2 (RS α) REv)) (hc : ∀ e, Act2.ev .rd e ∈ as → e.closed = true) :
+    ∀ ev ∈ evsOf REv.close .rd as, ev.closed = true := by
+  induction as with
+  | nil => intro ev h; simp [evsOf] at h
+  | cons a as ih =>
+    have ih' := ih (fun e he => hc e (by simp [he]))
+    cases a with
+    | ev d e =>
+      cases d with
+      | wr => simpa [evsOf] using ih'
+      | rd =>
+        intro ev hev
+        simp only [evsOf, if_true, List.mem_cons] at hev
+        rcases hev with rfl | hev
+        · exact hc _ (by simp)
+        · exact ih' ev hev
+    | close =>
+      intro ev hev
+      simp only [evsOf, List.mem_cons] at hev
+      rcases hev with rfl | hev
+      · rfl
+      · exact ih' ev hev
+    | start g dg s0 e0 => simpa [evsOf] using ih'
+
+/-- ★ system-level liveness for reads: on every infinite schedule of the shared stream in which productive read-direction
+    events keep coming (each burst of answers ending with "would block"), the pending read of fiber `f` ends after a finite
+    prefix, whatever the other fibers do. -/
+theorem shared_stream_read_ends_under_fairness {α : Type} (chunk recvfrom : Bool) (limC base n : Nat) (inc : List α) (f : Nat)
+    (sched : Nat → Act2 (RS α) REv) (w : W2 (RS α)) (hinv : Inv2 w)
+    (ho : w.op f = some (.rd, ⟨chunk, recvfrom, limC, base, rInit n inc, [], .pending⟩))
+    (hc : ∀ i e, sched i = .ev .rd e → e.closed = true)
+    (fair : ∀ k, ∃ j, k ≤ j ∧ fairActR (sched j) = true) :
+    ∃ m s, (f, Dir.rd, s) ∈ (run2 rstep .close w (prefixOf sched m)).done ∧ s.res.ended = true := by
+  obtain ⟨m, hm⟩ := fair_count sched fairActR fair (max 1 n)
+  have hcount := evsOf_productiveR (prefixOf sched m)
+  have hcl := evsOf_closedR (prefixOf sched m) (by
+    intro e he
+    obtain ⟨i, hi⟩ := mem_prefix sched m _ he
+    exact hc i e hi.symm)
+  have hend := read_ends_within chunk recvfrom limC base (evsOf REv.close .rd (prefixOf sched m)) (rInit n inc) hcl
+    (by simp [rInit] at hm ⊢; omega)
+  have hx := shared_stream_read_exact chunk recvfrom limC base n inc f (prefixOf sched m) w hinv ho
+  have hne : (runRead chunk recvfrom limC base (rInit n inc) (evsOf REv.close .rd (prefixOf sched m))).res ≠ .pending := by
+    intro h; rw [h] at hend; cases hend
+  obtain ⟨s, hs, _, _, hr⟩ := hx.2.1 hne
+  exact ⟨m, s, hs, by rw [hr]; exact hend⟩
+
+/-! ## close at the level of the whole stream -/
+
+/-- ★ after `janet_stream_close` no operation is pending on the stream: the reader and the writer each received their
+    CLOSE event (recorded in `done` with the callback's CLOSE result), for every reachable state. -/
+theorem close_leaves_nothing_pending {σ ε : Type} (step : σ → ε → σ × Bool) (c : ε) (w : W2 σ) (h : Inv2 w) (g : Nat) :
+    (step2 step c w .close).op g = none := by
+  cases hx : (step2 step c w .close).op g with
+  | none => rfl
+  | some p =>
+    exfalso
+    obtain ⟨d, s⟩ := p
+    -- if g were still pending in direction d it would still be in slot d; but close clears both slots
+    have hinv := step2_inv step c w .close h
+    have hs := hinv g d s hx
+    have hclear : ∀ (w' : W2 σ) (d' : Dir), (W2.closeDir step c w' d').slot d' = none := by
+      intro w' d'
+      rcases closeDir_cases step c w' d' with ⟨hr, hn⟩ | ⟨f, s', _, _, hr⟩ | ⟨f, _, _, hr⟩ <;> rw [hr]
+      · exact hn
+      · simp [W2.finish]
+      · simp
+    have hkeep : ∀ (w' : W2 σ) (d' d'' : Dir), w'.slot d'' = none → (W2.closeDir step c w' d').slot d'' = none := by
+      intro w' d' d'' hn
+      rcases closeDir_cases step c w' d' with ⟨hr, _⟩ | ⟨f, s', _, _, hr⟩ | ⟨f, _, _, hr⟩ <;> rw [hr]
+      · exact hn
+      · simp only [W2.finish]
+        by_cases hd : d'' = d'
+        · subst hd; simp
+        · rw [updS_other _ _ _ _ hd]; exact hn
+      · by_cases hd : d'' = d'
+        · subst hd; simp
+        · show updS w'.slot d' none d'' = none
+          rw [updS_other _ _ _ _ hd]; exact hn
+    have : (step2 step c w .close).slot d = none := by
+      show (W2.closeDir step c (W2.closeDir step c w .rd) .wr).slot d = none
+      cases d with
+      | rd => exact hkeep _ .wr .rd (hclear w .rd)
+      | wr => exact hclear _ .wr
+    rw [this] at hs
+    cases hs
+
 end JanetModel.Stream.Compose
